@@ -541,8 +541,13 @@ def impl_cli(case):
     try:
         isa, paths, incdirs = write_case(case, td)
         out = os.path.join(td, 'out.bin')
-        p = subprocess.run(cli_args(case, isa, paths, incdirs, out), capture_output=True, text=True, timeout=60,
-                           env=C.impl_env(), cwd=td)
+        args, cwd = cli_args(case, isa, paths, incdirs, out), td
+        if case.get('cli_relative'):
+            # the way a build script calls it: from the source directory, the main file by its bare name, the source
+            # directory itself also named with -I, the other include directories relative to it
+            cwd = os.path.dirname(paths[0])
+            args = cli_args(case, isa, [os.path.basename(paths[0])], ['.'] + [os.path.relpath(d, cwd) for d in incdirs], out)
+        p = subprocess.run(args, capture_output=True, text=True, timeout=60, env=C.impl_env(), cwd=cwd)
         if p.returncode != 0:
             raise SystemExit(f'exit status {p.returncode}: {p.stderr[-200:]}')
         if not os.path.exists(out):
@@ -631,7 +636,8 @@ def render_layout(stmts, seed, file_index, opts=None):
             text = text + _ws(rng, opts, 1) + layout_stmt(rng, opts, stmts[i + 1])
             i += 1
         if text.startswith('#'):
-            indent = ''
+            # directives may be indented like everything else
+            indent = _ws(rng, opts, 0) if opts.get('ws') and opts.get('indent_directives', True) and rng.random() < 0.4 else ''
         line = indent + text
         if opts.get('ws') and rng.random() < 0.3:
             line += _ws(rng, opts, 1)
